@@ -46,6 +46,37 @@ pub fn replay(a: &Args) -> Report {
         want.insert(m, auxes);
       }
     }
+    // payload shapes (once per configuration, at the small scale): short measurements next to
+    // associated data of complementary lengths (|m| + |aux| = 28, 32, 52, 64: sizes at which a
+    // payload could be mistaken for another shape), absent, empty and long associated data mixed
+    // in one bucket
+    if scale <= 5 && li % 2 == 0 {
+      for lm in [0usize, 1, 4, 11, 20, 24, 27, 28, 31, 32, 33] {
+        let m: Vec<u8> = (0..lm).map(|i| (i as u8).wrapping_mul(31).wrapping_add(li as u8)).collect();
+        let mg = MessageGenerator::new(SingleMeasurement::new(&m), t, epoch.as_bytes());
+        let mut rnd = [0u8; 32];
+        mg.sample_local_randomness(&mut rnd);
+        let mut shapes: Vec<Option<usize>> = vec![None, Some(0), Some(1), Some(166)];
+        for total in [28usize, 32, 36, 52, 64] {
+          if total >= lm {
+            shapes.push(Some(total - lm));
+          }
+        }
+        while shapes.len() < t as usize {
+          shapes.push(Some(7));
+        }
+        let mut auxes: Vec<Vec<u8>> = Vec::new();
+        for (i, sh) in shapes.iter().enumerate() {
+          let aux: Option<Vec<u8>> = sh.map(|n| (0..n).map(|j| (j as u8) ^ (i as u8) ^ 0x5a).collect());
+          auxes.push(aux.clone().unwrap_or_default());
+          if let Guard::Done(Ok(msg)) = guard(|| Message::generate(&mg, &rnd, aux.as_ref().map(|a| AssociatedData::new(a)))) {
+            msgs.push(msg);
+          }
+        }
+        auxes.sort();
+        want.insert(m, auxes);
+      }
+    }
     for k in 0..scale {
       for (g, n) in sizes.iter().enumerate() {
         let lm = [1usize, 20, 32, 200][(g + k) % 4];
